@@ -28,7 +28,8 @@ GaussOK(sps, T, idx, peakppm, fwhm) ==
 \* argument verdicts, one fault at a time.  fault names the offending argument and its defect.
 Verdict(fault) ==
   CASE fault = "none" -> "ok"
-    [] fault \in {"vout-str", "bias-str", "c-str", "m-float", "T-float", "vout-list", "bias-none-ok"} ->
+    [] fault \in {"vout-str", "bias-str", "c-str", "m-float", "T-float", "vout-list", "bias-none-ok", "vout-complex", "bias-complex", "vout-npcomplex", "bias-npcomplex",
+                 "vout-npcomplex64", "vout-tuple", "bias-ndarray", "bias-list"} ->
          (IF fault = "bias-none-ok" THEN "ok" ELSE "TypeError")
     [] fault \in {"vout-48", "vout-neg48", "vout-1000", "bias-48", "bias-neg100", "vout-48-gauss-narrow", "vout-49.5-gauss-narrow", "bias-48-gauss", "vout-neg1000-rz", "m-zero", "m-neg", "T-zero", "T-neg", "T-over-2sps", "shape-unknown"} -> "ValueError"
 =============================================================================
